@@ -106,7 +106,7 @@ func init() {
 	// ---------------- C11 ----------------
 	addControl(control{Prop: "C11", Name: "memoise-on-dynamic-value", Rule: "R11a", Kind: "mutant", Quick: true,
 		File: "types.go", Old: "	id  cacheID\n	dyn dynValue\n}", New: "	id  cacheID\n	dyn dynValue\n	last value\n}", Expect: "R11a/(*ucfg.Config).String",
-		More: []edit{{"types.go", "	return opts.parsed.cachedValue(d.id, func() (value, error) {\n		return d.dyn.getValue(&d.cfgPrimitive, opts)\n	})", "	v, err := opts.parsed.cachedValue(d.id, func() (value, error) {\n		return d.dyn.getValue(&d.cfgPrimitive, opts)\n	})\n	d.last = v\n	return v, err"}}})
+		More: []edit{{"types.go", "func (d *cfgDynamic) getValue(opts *options) (value, error) {\n	return opts.parsed.cachedValue(d.id, func() (value, error) {", "func (d *cfgDynamic) getValue(opts *options) (value, error) {\n	res, rerr := d.getValueUncached(opts)\n	d.last = res\n	return res, rerr\n}\n\nfunc (d *cfgDynamic) getValueUncached(opts *options) (value, error) {\n	return opts.parsed.cachedValue(d.id, func() (value, error) {"}}})
 	addControl(control{Prop: "C11", Name: "lazy-dictionary-in-hasfield", Rule: "R11a", Kind: "mutant",
 		File: "ucfg.go", Old: "	_, ok := c.fields.get(name)\n	return ok", New: "	if c.fields.d == nil {\n		c.fields.d = map[string]value{}\n	}\n	_, ok := c.fields.get(name)\n	return ok", Expect: "R11a/(*ucfg.Config).HasField"})
 	addControl(control{Prop: "C11", Name: "non-atomic-sequence", Rule: "R11b", Kind: "mutant", Quick: true,
@@ -243,8 +243,8 @@ func init() {
 		File: "path.go", Old: "	if i.i < 0 {\n		return raiseIndexOutOfBounds(opts, elem, i.i)\n	}\n", New: "", Expect: "R07a/(*ucfg.fields).setAt"})
 	addControl(control{Prop: "C07", Name: "lexer-end-of-input-test-removed", Rule: "R07a", Kind: "mutant",
 		File: "variables.go", Old: "				if len(content) <= off { // found '$' at end of string\n					return\n				}\n", New: "", Expect: "R07a/ucfg.lexer$1"})
-	addControl(control{Prop: "C07", Name: "dquote-scan-starts-at-zero", Rule: "R07a", Kind: "mutant",
-		File: "parse/parse.go", Old: "	in := p.input\n	off := 1\n	var i int", New: "	in := p.input\n	off := 0\n	var i int", Expect: "R07a/(*parse.flagParser).parseStringDQuote"})
+	addControl(control{Prop: "C07", Name: "dquote-scan-one-past-the-end", Rule: "R07a", Kind: "mutant",
+		File: "parse/parse.go", Old: "	for ; i < len(in); i++ {\n		if in[i] == '\\\\' {", New: "	for ; i <= len(in); i++ {\n		if in[i] == '\\\\' {", Expect: "R07a/(*parse.flagParser).parseStringDQuote"})
 	addControl(control{Prop: "C07", Name: "delat-bound-weakened", Rule: "R07a", Kind: "mutant",
 		File: "ucfg.go", Old: "	if i < 0 || len(a) <= i {\n		return false\n	}", New: "	if i < 0 || len(a) < i {\n		return false\n	}", Expect: "R07a/(*ucfg.fields).delAt"})
 	addControl(control{Prop: "C07", Name: "drain-after-first-return", Rule: "R07e", Kind: "mutant", Quick: true,
@@ -505,4 +505,52 @@ func init() {
 		File: "merge.go", Old: ") (value, Error) {\n	v = chaseValue(v)\n\n	switch v.Type() {", New: ") (value, Error) {\n	v = chaseValuePointers(v)\n\n	switch v.Type() {", Expect: "R05e/ucfg.normalizeValue"})
 	addControl(control{Prop: "C05", Name: "collision-switch-as-if-chain", Rule: "R05d", Kind: "refactor", Quick: true,
 		File: "merge.go", Old: "	switch {\n	case !isNil(old) && isNil(val):\n		return nil\n	case isNil(old):\n		return p.SetValue(cfg, opts, val)\n	case isSub(old) && isSub(val):", New: "	if isNil(old) {\n		return p.SetValue(cfg, opts, val)\n	}\n	if isNil(val) {\n		return nil\n	}\n	switch {\n	case isSub(old) && isSub(val):"})
+	addControl(control{Prop: "C08", Name: "reference-chain-not-followed", Rule: "R08h", Kind: "mutant", Quick: true,
+		File: "types.go", Old: "		for err == nil {\n			next, ok := v.(*cfgDynamic)\n			if !ok {\n				break\n			}\n			v, err = next.getValue(opts)\n		}\n		return v, err", New: "		return v, err", Expect: "R08h/"})
+	addControl(control{Prop: "C08", Name: "reference-chain-followed-recursively", Rule: "R08h", Kind: "refactor",
+		File: "types.go", Old: "		for err == nil {\n			next, ok := v.(*cfgDynamic)\n			if !ok {\n				break\n			}\n			v, err = next.getValue(opts)\n		}\n		return v, err", New: "		if err != nil {\n			return v, err\n		}\n		if next, ok := v.(*cfgDynamic); ok {\n			return next.getValue(opts)\n		}\n		return v, nil"})
+	// ---------------- rules added after the second round of seeded changes ----------------
+	addControl(control{Prop: "C20", Name: "default-cap-applied-after-options", Rule: "R20e", Kind: "mutant", Quick: true,
+		File: "opts.go", Old: "	for _, opt := range opts {\n		opt(&o)\n	}\n	return &o", New: "	for _, opt := range opts {\n		opt(&o)\n	}\n	if o.maxIdx == 0 {\n		o.maxIdx = defaultMaxIdx\n	}\n	return &o", Expect: "R20e/ucfg.makeOptions"})
+	addControl(control{Prop: "C20", Name: "options-applied-by-index", Rule: "R20e", Kind: "refactor",
+		File: "opts.go", Old: "	for _, opt := range opts {\n		opt(&o)\n	}\n	return &o", New: "	for i := 0; i < len(opts); i++ {\n		apply := opts[i]\n		apply(&o)\n	}\n	return &o"})
+	addControl(control{Prop: "C06", Name: "tag-name-read-as-option", Rule: "R06g", Kind: "mutant", Quick: true,
+		File: "util.go", Old: "	for _, opt := range s[1:] {\n		switch opt {", New: "	for _, opt := range s {\n		switch opt {", Expect: "R06g/ucfg.parseTags"})
+	addControl(control{Prop: "C06", Name: "tag-options-by-index", Rule: "R06g", Kind: "refactor",
+		File: "util.go", Old: "	for _, opt := range s[1:] {\n		switch opt {", New: "	for i := 1; i < len(s); i++ {\n		opt := strings.TrimSpace(s[i])\n		switch opt {"})
+	addControl(control{Prop: "C17", Name: "literal-rewritten-before-decoding", Rule: "R17e", Kind: "mutant", Quick: true,
+		File: "parse/parse.go", Old: "	lit := in[:i+1]\n", New: "	lit := strings.ReplaceAll(in[:i+1], `\\/`, `/`)\n", Expect: "R17e/"})
+	addControl(control{Prop: "C17", Name: "quote-escaped-iff-previous-byte-is-backslash", Rule: "R17f", Kind: "mutant", Quick: true,
+		File: "parse/parse.go", Old: "		if in[i] == '\\\\' {\n			i++\n			continue\n		}\n		if in[i] == '\"' {\n			break\n		}", New: "		if in[i] == '\"' && in[i-1] != '\\\\' {\n			break\n		}", Expect: "R17f/"})
+	addControl(control{Prop: "C17", Name: "backslash-does-not-take-next-byte", Rule: "R17f", Kind: "mutant",
+		File: "parse/parse.go", Old: "		if in[i] == '\\\\' {\n			i++\n			continue\n		}", New: "		if in[i] == '\\\\' {\n			continue\n		}", Expect: "R17f/(*parse.flagParser).parseStringDQuote/backslash takes the next byte"})
+	addControl(control{Prop: "C17", Name: "no-json-fallback", Rule: "R17g", Kind: "mutant",
+		File: "parse/parse.go", Old: "		if json.Unmarshal([]byte(lit), &js) == nil {\n			return js, nil\n		}", New: "		_ = json.Unmarshal\n		_ = js", Expect: "R17g/"})
+	addControl(control{Prop: "C17", Name: "scan-loop-with-switch", Rule: "R17f", Kind: "refactor",
+		File: "parse/parse.go", Old: "		if in[i] == '\\\\' {\n			i++\n			continue\n		}\n		if in[i] == '\"' {\n			break\n		}\n	}", New: "		c := in[i]\n		if c == '\\\\' {\n			i += 1\n			continue\n		}\n		if c == '\"' {\n			break\n		}\n	}"})
+	addControl(control{Prop: "C14", Name: "typed-user-error-passed-through", Rule: "R14e", Kind: "mutant", Quick: true,
+		File: "unpack.go", Old: "	if err != nil {\n		return raisePathErr(err, meta, \"\", ctx.path(\".\"))\n	}\n	return nil", New: "	if err != nil {\n		if cfgErr, ok := err.(Error); ok {\n			return cfgErr\n		}\n		return raisePathErr(err, meta, \"\", ctx.path(\".\"))\n	}\n	return nil", Expect: "R14e/ucfg.unpackWith"})
+	addControl(control{Prop: "C08", Name: "null-results-not-cached", Rule: "R08e", Kind: "mutant", Quick: true,
+		File: "opts.go", Old: "	if v != nil && v.canCache() {", New: "	if !isNil(v) && v.canCache() {", Expect: "R08e/(ucfg.valueCache).cachedValue/every cacheable result is cached"})
+	addControl(control{Prop: "C08", Name: "cache-guard-nested", Rule: "R08e", Kind: "refactor",
+		File: "opts.go", Old: "	if v != nil && v.canCache() {\n		cache[string(id)] = spliceValue{err, v}\n	}", New: "	if v != nil {\n		if v.canCache() {\n			cache[string(id)] = spliceValue{err, v}\n		}\n	}"})
+	addControl(control{Prop: "C07", Name: "list-grown-into-spare-capacity", Rule: "R07k", Kind: "mutant", Quick: true,
+		File: "ucfg.go", Old: "	if idx >= l {\n		tmp := make([]value, idx+1)", New: "	if idx >= l && idx < cap(f.a) {\n		f.a = f.a[:idx+1]\n	} else if idx >= l {\n		tmp := make([]value, idx+1)", Expect: "R07k/(*ucfg.fields).setAt"})
+	addControl(control{Prop: "C04", Name: "kept-elements-in-front-not-validated", Rule: "R04f", Kind: "mutant", Quick: true,
+		File: "reify.go", Old: "	for idx := 0; idx < tLen; idx++ {\n		if idx >= start && idx < start+aLen {", New: "	for idx := start; idx < tLen; idx++ {\n		if idx >= start && idx < start+aLen {", Expect: "R04f/ucfg.reifyDoArray"})
+	addControl(control{Prop: "C04", Name: "validation-skipped-for-some-slots", Rule: "R04f", Kind: "mutant",
+		File: "reify.go", Old: "		} else {\n			if err := tryRecursiveValidate(to.Index(idx), opts.opts, nil); err != nil {\n				return reflect.Value{}, raiseValidation(val.Context(), val.meta(), \"\", err)\n			}\n		}\n	}", New: "		} else if idx > start {\n			if err := tryRecursiveValidate(to.Index(idx), opts.opts, nil); err != nil {\n				return reflect.Value{}, raiseValidation(val.Context(), val.meta(), \"\", err)\n			}\n		}\n	}", Expect: "R04f/ucfg.reifyDoArray"})
+	addControl(control{Prop: "C04", Name: "three-loops-cover-the-list", Rule: "R04f", Kind: "refactor", Quick: true,
+		File: "reify.go", Old: "	for idx := 0; idx < tLen; idx++ {\n		if idx >= start && idx < start+aLen {\n			opts.opts.activeFields = newFieldSet(parentFields)\n			v, err := reifyMergeValue(opts, to.Index(idx), arr[idx-start])\n			if err != nil {\n				return reflect.Value{}, err\n			}\n			if v.IsValid() {\n				to.Index(idx).Set(v)\n			}\n		} else {\n			if err := tryRecursiveValidate(to.Index(idx), opts.opts, nil); err != nil {\n				return reflect.Value{}, raiseValidation(val.Context(), val.meta(), \"\", err)\n			}\n		}\n	}",
+		New: "	_ = tLen\n	for idx := 0; idx < start; idx++ {\n		if err := tryRecursiveValidate(to.Index(idx), opts.opts, nil); err != nil {\n			return reflect.Value{}, raiseValidation(val.Context(), val.meta(), \"\", err)\n		}\n	}\n	for i := 0; i < aLen; i++ {\n		opts.opts.activeFields = newFieldSet(parentFields)\n		v, err := reifyMergeValue(opts, to.Index(start+i), arr[i])\n		if err != nil {\n			return reflect.Value{}, err\n		}\n		if v.IsValid() {\n			to.Index(start + i).Set(v)\n		}\n	}\n	for idx := start + aLen; idx < to.Len(); idx++ {\n		if err := tryRecursiveValidate(to.Index(idx), opts.opts, nil); err != nil {\n			return reflect.Value{}, raiseValidation(val.Context(), val.meta(), \"\", err)\n		}\n	}"})
+	addControl(control{Prop: "C09", Name: "keys-sorted-case-insensitively", Rule: "R09d", Kind: "mutant", Quick: true,
+		File: "ucfg.go", Old: "		keys = append(keys, k)\n	}\n	sort.Strings(keys)\n	return keys\n}\n\nfunc (f *fields) del", New: "		keys = append(keys, k)\n	}\n	sort.Slice(keys, func(i, j int) bool { return len(keys[i]) < len(keys[j]) })\n	return keys\n}\n\nfunc (f *fields) del", Expect: "R09d/ucfg.sortedKeys"})
+	addControl(control{Prop: "C11", Name: "tag-parse-memoised-in-package-variable", Rule: "R11e", Kind: "mutant", Quick: true,
+		File: "util.go", Old: "func fieldName(tagName, structName string) string {", New: "var parsedTags sync.Map\n\nfunc fieldTags(tag reflect.StructTag, key string) (string, tagOptions) {\n	if p, ok := parsedTags.Load(tag); ok {\n		return p.(string), tagOptions{}\n	}\n	name, opts := parseTags(tag.Get(key))\n	parsedTags.Store(tag, name)\n	return name, opts\n}\n\nfunc fieldName(tagName, structName string) string {", Expect: "R11e/ucfg.fieldTags",
+		More: []edit{{"util.go", "import (\n	\"reflect\"\n	\"strings\"\n", "import (\n	\"reflect\"\n	\"strings\"\n	\"sync\"\n"}}})
+	addControl(control{Prop: "C13", Name: "tag-parse-memo-across-unpacks", Rule: "R13e", Kind: "mutant", Quick: true,
+		File: "util.go", Old: "func fieldName(tagName, structName string) string {", New: "var parsedTags sync.Map\n\nfunc fieldTags(tag reflect.StructTag, key string) (string, tagOptions) {\n	if p, ok := parsedTags.Load(tag); ok {\n		return p.(string), tagOptions{}\n	}\n	name, opts := parseTags(tag.Get(key))\n	parsedTags.Store(tag, name)\n	return name, opts\n}\n\nfunc fieldName(tagName, structName string) string {", Expect: "R13e/ucfg.fieldTags",
+		More: []edit{{"util.go", "import (\n	\"reflect\"\n	\"strings\"\n", "import (\n	\"reflect\"\n	\"strings\"\n	\"sync\"\n"}}})
+	addControl(control{Prop: "C02", Name: "dynamic-value-copied-as-struct", Rule: "R02g", Kind: "mutant", Quick: true,
+		File: "types.go", Old: "	return newDyn(c, d.meta(), d.dyn)", New: "	cp := *d\n	cp.ctx = c\n	return &cp", Expect: "R02g/(*ucfg.cfgDynamic).cpy"})
 }
